@@ -83,6 +83,12 @@ func checkMain(args []string) int {
 	outDir := filepath.Join(*verif, "out", fmt.Sprintf("%s-%s-%d", prop, *tier, os.Getpid()))
 	os.MkdirAll(outDir, 0o755)
 	opts := solveOpts{outDir: outDir, quickS: 20, retryS: 60, seed: seed, keep: *keep}
+	opts.known = map[string]bool{}
+	for _, k := range loadKnown(filepath.Join(*verif, "known_findings.json")).Findings {
+		if k.Property == prop {
+			opts.known[k.Obligation] = true
+		}
+	}
 	if *tier == "thorough" {
 		opts.quickS, opts.retryS = 60, 180
 	}
@@ -233,9 +239,15 @@ func checkMain(args []string) int {
 	for _, d := range deadNotes {
 		assumptions["note: unreachable return (dead code or contradictory path assumptions): "+d] = true
 	}
-	if len(eng.staleErrs) > 0 {
+	// Contract clauses that no longer match the code (a named local, loop or closure is gone) were dropped while the obligations were
+	// generated. If obligations that used to be discharged now fail, that is reported as the violation it is (the proof of the
+	// property no longer goes through on this tree); only when nothing fails is the mismatch itself the result: no verdict.
+	if len(eng.staleErrs) > 0 && len(violations) == 0 {
 		fmt.Fprintln(os.Stderr, "machinery error: contracts do not match the code (see above); no verdict")
 		return 2
+	}
+	for _, s := range eng.staleErrs {
+		assumptions["note: contract clause dropped because it no longer matches the code: "+s] = true
 	}
 	if total == 0 {
 		fmt.Fprintln(os.Stderr, "machinery error: zero obligations generated")
